@@ -14,6 +14,10 @@ from tawazi.node import UsageExecNode
 NF, ND = 4, 2
 
 
+class DescribeFailed(Exception):
+    """raised by a describing function on purpose"""
+
+
 def make_fn(k):
     def f(x=0):
         return ("f%d" % k, x)
@@ -45,7 +49,9 @@ def gen(rng, nthreads=None):
                 if rng.random() < 0.6:
                     acts.append("R%d" % rng.randrange(NF))
                 else:
-                    acts.append("E"); inside = False
+                    # a describing function may RAISE (an ordinary user mistake): nothing is built, and the thread
+                    # goes on calling DAGs / functions / building again
+                    acts.append("A" if rng.random() < 0.3 else "E"); inside = False
             else:
                 r = rng.random()
                 if r < 0.35:
@@ -155,8 +161,9 @@ def run(sc):
                 if a == "B":
                     j = i + 1
                     inner = []
-                    while acts[j] != "E":
+                    while acts[j] not in ("E", "A"):
                         inner.append(acts[j]); j += 1
+                    term = acts[j]
                     state = dict(observed_begin=None)
 
                     def describe():
@@ -173,7 +180,9 @@ def run(sc):
                                 obs[tid].append(classify(v) or "FN%s" % r[1:])
                             T.end_turn(tid, o)
                             last = v
-                        state["observed_end"] = T.wait_turn(tid, "E")
+                        state["observed_end"] = T.wait_turn(tid, term)
+                        if term == "A":
+                            raise DescribeFailed()
                         return last if last is not None else fns[0](1)
 
                     describe.__name__ = describe.__qualname__ = "built_by_%d" % tid
@@ -185,6 +194,8 @@ def run(sc):
                         if not inner and tab and tab[-1] == 0:
                             tab = tab[:-1]
                         res = "BUILT:" + ",".join(map(str, tab))
+                    except DescribeFailed:
+                        res = "FAILED"
                     except BaseException as e:  # noqa: BLE001
                         res = "EXC:" + type(e).__name__
                     T.builder = None
@@ -234,6 +245,8 @@ def solo(prog):
             out.append("REF"); recs.append(int(a[1:]))
         elif a == "E":
             out.append("BUILT:" + ",".join(map(str, recs))); inside = False
+        elif a == "A":
+            out.append("FAILED"); inside = False
         elif a[0] == "F":
             out.append("FN" + a[1:])
         else:
